@@ -105,7 +105,7 @@ func c16Resolve(c *Ctx, px string) *c16Fns {
 	maxEdges := edgesMatching(b, "bin<<=>(len(p0), 90)")
 	for _, e := range ana.Exits(dec) {
 		if !e.Panic && b.Of(e.Results[2], e.Instr).Is("nil") {
-			r.Check(len(maxEdges) > 0 && mustPass(dec, e.Instr.Block(), plainEdges(maxEdges)), px+".distance.length-limit", c.ipos(e.Instr), "Decode accepts only strings of at most 90 characters (the BCH code guarantees distance 5 only up to length 89 of expanded low part + data)")
+			r.Check(len(maxEdges) > 0 && exitMustPass(dec, e, plainEdges(maxEdges)), px+".distance.length-limit", c.ipos(e.Instr), "Decode accepts only strings of at most 90 characters (the BCH code guarantees distance 5 only up to length 89 of expanded low part + data)")
 		}
 	}
 	return out
